@@ -285,6 +285,8 @@ def _gp_obs(gp):
 
 def observe(raw):
   """Run the endpoint on the raw request; returns dict(raised=..) or the observed description of what view() really built."""
+  import warnings
+  warnings.filterwarnings("ignore", module="qmcpy")
   from libsigopt.compute import acquisition_function as afm
   from libsigopt.views.rest.gp_ei_categorical import GpEiCategoricalView
   calls = []
@@ -634,11 +636,12 @@ def ref_pipeline(raw, info, mc_rng=None):
       if len(order) > 1 and abs(qs[order[0]] - qs[order[1]]) <= 1e-9 * max(1e-300, abs(qs[order[0]])):
         raise Skip("tie in the augmented-EI incumbent quantile")
       best = preds[order[0]][0]
-  out, sig, se = [], [], []
+  out, sig, se, prior = [], [], [], []
   for q in XQ:
     mu, v = pred(q)
     s = math.sqrt(v)
     sig.append(s)
+    prior.append(sum(w * w * g.k(q, q) for w, g in zip(weights or [1.0], gps)))
     if kind in ("qei", "qei_failures"):
       if kind == "qei_failures":
         out.append(None)   # the Monte-Carlo form with failures is tied by introspection only
@@ -654,7 +657,9 @@ def ref_pipeline(raw, info, mc_rng=None):
       z = mc_rng.standard_normal((N, len(Q)))
       imp = numpy.maximum(0.0, numpy.max(best - mus[None, :] - z @ L.T, axis=1))
       ei = float(imp.mean())
-      se.append(float(imp.std()) * math.sqrt(1.0 / N + 1.0 / 10000.0))
+      # standard error of the library's 10000-draw estimate plus ours; rare-event estimates are Poisson-like, so also allow
+      # ten draws of (nearly) maximal size among the library's 10000
+      se.append(float(imp.std()) * math.sqrt(1.0 / N + 1.0 / 10000.0) + (10.0 / 6.0) * float(numpy.quantile(imp, 0.9999)) / 10000.0)
     else:
       zz = (best - mu) / s
       ei = s * max(0.0, zz * _phi(zz) + _pdf(zz))
@@ -666,4 +671,4 @@ def ref_pipeline(raw, info, mc_rng=None):
     if has_task:
       ei /= q[-1]
     out.append(ei)
-  return dict(ei=out, sigma=sig, cond=cond, kind=kind, mc_se=se, costs=[q[-1] if has_task else 1.0 for q in XQ])
+  return dict(ei=out, sigma=sig, prior=prior, cond=cond, kind=kind, mc_se=se, costs=[q[-1] if has_task else 1.0 for q in XQ])
